@@ -8,5 +8,6 @@ CONSTANTS
   AllRS = @ALLRS@
   Wide = @WIDE@
   Mism = @MISM@
+  Refill = @REFILL@
 INVARIANTS Emit
 CHECK_DEADLOCK FALSE
